@@ -27,6 +27,7 @@ type Program struct {
 	Roots     []string
 	HarnessFiles []string
 	BadDirectives []string
+	CallSites []callSite
 }
 
 // StdRoots are standard / third party packages whose bodies are executed from source.
@@ -175,6 +176,20 @@ func Load(repo string, harnessDirs []string, repoPkgs []string) (*Program, error
 
 func (P *Program) parseDirective(c *ast.Comment, pkgPath string) {
 	t := strings.TrimSpace(strings.TrimPrefix(c.Text, "//"))
+	if strings.HasPrefix(t, "verif:callsite ") {
+		// verif:callsite <set> <repo-relative file> <pkg.Func as written at the call sites> <replacement>
+		f := strings.Fields(t)
+		if len(f) != 5 {
+			P.BadDirectives = append(P.BadDirectives, c.Text)
+			return
+		}
+		repl := f[4]
+		if !strings.Contains(repl, ".") {
+			repl = pkgPath + "." + repl
+		}
+		P.CallSites = append(P.CallSites, callSite{Set: f[1], File: f[2], Func: f[3], Repl: repl})
+		return
+	}
 	if !strings.HasPrefix(t, "verif:override ") {
 		return
 	}
